@@ -585,6 +585,9 @@ class Interp:
                 if isinstance(obj, list) and isinstance(t.slice, ast.Slice):
                     raise Unsupported("slice store")
                 obj[k] = v
+            elif isinstance(obj, Opaque):
+                # a store into a container of unknown contents: it stays unknown (recorded for the rules that ask who writes where)
+                self.events.append(("setitem", obj, k, v))
             else:
                 raise Unsupported(f"subscript store on {obj!r}")
         else:
